@@ -131,6 +131,7 @@ func runC18(c *Ctx) {
 			iss := mustPub(signer)
 			h1, e1 := d1.HashID()
 			emit(iss, sub, imp, h1, e1 != nil, map[string]interface{}{"stage": "v1 encode -> v1 decode -> v1 HashID"})
+			poisonStep() // (what came before must not matter)
 			d2, err := jwt.DecodeActivationClaims(tok1)
 			if err != nil {
 				panic(err)
@@ -141,6 +142,7 @@ func runC18(c *Ctx) {
 			if err != nil {
 				panic(err)
 			}
+			poisonStep() // (what came before must not matter)
 			d3, err := jwt.DecodeActivationClaims(tok3)
 			if err != nil {
 				panic(err)
